@@ -54,6 +54,12 @@ EXTENDS Integers, Sequences
 Big == 1073741824
 Small(x) == x # Big
 Abs(x) == IF x < 0 THEN -x ELSE x
+\* TLC integers are 32 bit and a product that does not fit is a TLC error, not FALSE: every product with an
+\* OBSERVED factor is guarded (observed numbers are < 2^24 or Big)
+MaxInt == 2147483647
+Fits(a, b) == a = 0 \/ b = 0 \/ Abs(a) <= MaxInt \div Abs(b)
+\* (q*S + r) mod U for a small grid index q (|q| < 1000) without forming q*S
+ModU(q, r, S, U) == ((q * (S % U)) + (r % U)) % U
 
 (* ---- time pairs over a step S *)
 TNorm(q, r, S) == <<q + (r \div S), r % S>>
@@ -78,8 +84,8 @@ ExpTime(tin, ts, V, S) == TAdd(tin, ts * V, S)
 ExactShift(tin, ts, V, Uin, Uout, gs, S) ==
    /\ tin[2] % V = 0
    /\ (ts * V) % Uin = 0
-   /\ LET x == ExpTime(tin, ts, V, S) IN (gs + ((x[1] * S + x[2]) % Uout)) % Uout = 0
-ExactKeep(tin, Uout, gs, S) == (gs + ((tin[1] * S + tin[2]) % Uout)) % Uout = 0
+   /\ LET x == ExpTime(tin, ts, V, S) IN (gs + ModU(x[1], x[2], S, Uout)) % Uout = 0
+ExactKeep(tin, Uout, gs, S) == (gs + ModU(tin[1], tin[2], S, Uout)) % Uout = 0
 TimeOK(exp, got, exact, tol, S) ==
    IF exact THEN got = exp ELSE TNear(got, exp) /\ Abs(TDiff(got, exp, S)) < tol
 
@@ -91,14 +97,15 @@ GridEither(n, startNr, t) == GridOK(n + startNr, t) \/ GridOK(n, t)
 NumberEither(n, startNr, t, S) == NumberOK(n + startNr, t, S) \/ NumberOK(n, t, S)
 
 (* ---- X02.dur: a stored sample duration is the uploaded one scaled to the stored timescale *)
-ScaledOK(din, dout, Uin, Uout) == Abs(dout * Uout - din * Uin) < Uout
+ScaledOK(din, dout, Uin, Uout) == Fits(dout, Uout) /\ Fits(din, Uin) /\ Abs(dout * Uout - din * Uin) < Uout
 
 (* ---- X02.mpd: DASH meaning of SegmentTemplate@startNumber / @duration / @presentationTimeOffset *)
-MpdDurOK(dur, Uout, S) == Abs(dur * Uout - S) < Uout
+MpdDurOK(dur, Uout, S) == Fits(dur, Uout) /\ Abs(dur * Uout - S) < Uout
+MpdDurExact(dur, Uout, S) == Fits(dur, Uout) /\ dur * Uout = S
 \* media time of number n per manifest minus stored time, in fine units (n, q relative to the same base)
 MpdOffset(n, t, sn, pto, Uout, S) == (n - sn - t[1]) * S + pto * Uout - t[2]
-MpdExact(n, t, sn, pto, Uout, S) == Abs(n - sn - t[1]) <= 1 /\ MpdOffset(n, t, sn, pto, Uout, S) = 0
-MpdNear(n, t, sn, pto, Uout, S) == Abs(n - sn - t[1]) <= 1 /\ 2 * Abs(MpdOffset(n, t, sn, pto, Uout, S)) <= S
+MpdExact(n, t, sn, pto, Uout, S) == Abs(n - sn - t[1]) <= 1 /\ Fits(pto, 2 * Uout) /\ MpdOffset(n, t, sn, pto, Uout, S) = 0
+MpdNear(n, t, sn, pto, Uout, S) == Abs(n - sn - t[1]) <= 1 /\ Fits(pto, 2 * Uout) /\ 2 * Abs(MpdOffset(n, t, sn, pto, Uout, S)) <= S
 
 (* ---- X02.ast: ast0 = AST in s since 1970 (Big if not small), astc = AST - creation time *)
 AstOK(class, ast0, astc) ==
